@@ -6,6 +6,7 @@ CONSTANTS
   HistLen = 2
   Rich = FALSE
   RichCells = FALSE
+  Limits = {0, 1}
   Prices <- MCPrices
 INIT InitSmall
 NEXT SNext
